@@ -17,6 +17,8 @@ as broken.
   == != < <= > >= (int), == != (str)       Z.eqb ... / eqs
   not e                                    negb e (bool)  |  Z.eqb e 0 (int)
   and / or                                 andb / orb
+  an int used as a condition / operand of  negb (Z.eqb e 0)
+  and, or
   x.startswith(y)                          starts y x
   x.find('c', start)  (1-char constant)    py_find_char x c start
   x.replace('a', 'b') (1-char constants)   py_replace_char x a b
@@ -145,7 +147,7 @@ class Fn:
                     return m[op] % (a, b), "bool"
             self.bad(e, "comparison %s %s" % (ta, tb))
         if isinstance(e, ast.BoolOp):
-            parts = [self.expr(v, env) for v in e.values]
+            parts = [self.truth(v, env) for v in e.values]
             if any(t != "bool" for _, t in parts):
                 self.bad(e, "and/or on non-bool")
             fn = "andb" if isinstance(e.op, ast.And) else "orb"
@@ -202,6 +204,13 @@ class Fn:
                     return "(lower %s)" % x, "str"
                 self.bad(e, "method " + m)
         self.bad(e, "expression kind")
+
+    def truth(self, e, env):
+        """an expression in boolean context: a bool, or an int (Python truthiness: non-zero)"""
+        t, ty = self.expr(e, env)
+        if ty == "int":
+            return "(negb (Z.eqb %s 0))" % t, "bool"
+        return t, ty
 
     # ------------------------------------------------------------ statements
     @staticmethod
@@ -287,7 +296,7 @@ class Fn:
                 self.bad(s, "augmented assignment type")
             return "%slet %s := (Z.land %s %s) in\n%s" % (pad, s.target.id, s.target.id, t, self.block(rest, k, env, ind))
         if isinstance(s, ast.If):
-            c, tc = self.expr(s.test, env)
+            c, tc = self.truth(s.test, env)
             if tc != "bool":
                 self.bad(s, "if condition is not a bool (type %s)" % tc)
             if not self.has_return([s]):
